@@ -144,8 +144,15 @@ def run(ctx, col: Collector):
                 if norm(g.iter) in copies and isinstance(g.target, ast.Name) and norm(dc.value) == g.target.id \
                         and isinstance(dc.key, ast.Attribute) and norm(dc.key.value) == g.target.id:
                     keyed[tgt.id] = dc.key.attr
+        env1: Dict[str, ast.AST] = {}
+        cnt1: Dict[str, int] = {}
+        for n in walk_no_nested(fi.node):
+            if isinstance(n, ast.Assign) and len(n.targets) == 1 and isinstance(n.targets[0], ast.Name):
+                cnt1[n.targets[0].id] = cnt1.get(n.targets[0].id, 0) + 1
+                env1[n.targets[0].id] = n.value
+        env1 = {k: v for k, v in env1.items() if cnt1.get(k) == 1 and k not in copies}
         for r in rets:
-            kind, why = order_only(r.value, copies, keyed)
+            kind, why = order_only(r.value, copies, keyed, env1)
             cons = f'reorder_tables_for_sql:return@{norm(r.value)[:50]}'
             if kind == 'perm':
                 col.ok('C18-permutation', cons, f'the result is an order-only transformation of `{tp}` ({why})', node=r, file=fi.file)
@@ -331,13 +338,27 @@ def run(ctx, col: Collector):
     guarded(col, 'C18-direction', 'direction', direction)
 
 
-def order_only(e: Optional[ast.AST], copies: Set[str], keyed: Optional[Dict[str, str]] = None) -> Tuple[str, str]:
+def order_only(e: Optional[ast.AST], copies: Set[str], keyed: Optional[Dict[str, str]] = None, env: Optional[Dict[str, ast.AST]] = None, depth: int = 0) -> Tuple[str, str]:
     """('perm', how) / ('notperm', why) / ('unknown', '')."""
     keyed = keyed or {}
+    env = env or {}
     if e is None:
         return 'notperm', 'nothing is returned'
     if isinstance(e, ast.Name) and e.id in copies:
         return 'perm', 'the list itself'
+    if isinstance(e, ast.Name) and e.id in env and depth < 4:
+        return order_only(env[e.id], copies, keyed, env, depth + 1)
+    if isinstance(e, ast.BinOp) and isinstance(e.op, ast.Add):
+        # a concatenation of parts: one part that loses elements makes the whole lose them
+        for part in (e.left, e.right):
+            k, w = order_only(part, copies, keyed, env, depth + 1)
+            if k == 'notperm':
+                return k, w
+        return 'unknown', ''
+    if isinstance(e, ast.Call) and isinstance(e.func, ast.Name) and e.func.id in ('sorted', 'list', 'tuple', 'reversed') and e.args and depth < 4:
+        k0, w0 = order_only(e.args[0], copies, keyed, env, depth + 1)
+        if k0 == 'notperm':
+            return k0, w0
     if isinstance(e, ast.Call) and isinstance(e.func, ast.Name) and e.func.id in ('sorted', 'list', 'tuple', 'reversed') and e.args:
         k, w = order_only(e.args[0], copies, keyed)
         return (k, f'{e.func.id}({w})') if k == 'perm' else (k, w)
